@@ -421,6 +421,8 @@ def to_seq_bytes(x):
         return x.seq
     if isinstance(x, (bytes, bytearray, memoryview)):
         return Seq.from_bytes(bytes(x))
+    if type(x).__name__ == 'VByteArray':
+        return to_seq_bytes(x.v)
     return None
 
 
